@@ -104,6 +104,10 @@ pub enum XStep {
 pub struct History {
 	/// true: VarElem on a non-prunable backend; false: FixElem on a prunable backend
 	pub var: bool,
+	/// VarElem on a PRUNABLE backend (removals and compaction as for FixElem). The node never prunes its
+	/// variable-size MMR (kernels); the store supports it and the statement names variable-size elements
+	#[serde(default)]
+	pub var_prunable: bool,
 	pub seed: u64,
 	pub steps: Vec<XStep>,
 }
@@ -151,6 +155,7 @@ pub enum SStep {
 #[derive(Clone, Debug)]
 pub struct SCase {
 	pub var: bool,
+	pub var_prunable: bool,
 	pub seed: u64,
 	pub steps: Vec<SStep>,
 }
@@ -187,8 +192,9 @@ fn step_strategy(var: bool) -> impl Strategy<Value = SStep> {
 }
 
 pub fn store_strategy() -> impl Strategy<Value = SCase> {
-	prop::bool::weighted(0.2).prop_flat_map(|var| {
-		(any::<u64>(), prop::collection::vec(step_strategy(var), 1..=MAX_STEPS)).prop_map(move |(seed, steps)| SCase { var, seed, steps })
+	// 70% FixElem prunable, 15% VarElem non-prunable (the kernel MMR's usage), 15% VarElem prunable
+	prop_oneof![14 => Just((false, false)), 3 => Just((true, false)), 3 => Just((true, true))].prop_flat_map(|(var, var_prunable)| {
+		(any::<u64>(), prop::collection::vec(step_strategy(var && !var_prunable), 1..=MAX_STEPS)).prop_map(move |(seed, steps)| SCase { var, var_prunable, seed, steps })
 	})
 }
 
@@ -216,9 +222,9 @@ pub fn resolve(raw: &SCase) -> History {
 	for st in &raw.steps {
 		match st {
 			SStep::Reopen => steps.push(XStep::Reopen),
-			SStep::ReopenWithoutSizeFile => steps.push(if raw.var { XStep::ReopenWithoutSizeFile } else { XStep::Reopen }),
+			SStep::ReopenWithoutSizeFile => steps.push(if raw.var && !raw.var_prunable { XStep::ReopenWithoutSizeFile } else { XStep::Reopen }),
 			SStep::Compact(p) => {
-				if raw.var {
+				if raw.var && !raw.var_prunable {
 					continue;
 				}
 				let len = m.blocks.len();
@@ -260,7 +266,7 @@ pub fn resolve(raw: &SCase) -> History {
 						out
 					};
 					let in_range = |a: u64, e: u64| -> Vec<u64> { live.iter().copied().filter(|i| *i >= a && *i < e).collect() };
-					let mut removes: Vec<u64> = if raw.var {
+					let mut removes: Vec<u64> = if raw.var && !raw.var_prunable {
 						vec![]
 					} else {
 						match &b.spend {
@@ -337,6 +343,7 @@ pub fn resolve(raw: &SCase) -> History {
 	}
 	History {
 		var: raw.var,
+		var_prunable: raw.var_prunable,
 		seed: raw.seed,
 		steps,
 	}
@@ -527,7 +534,7 @@ pub fn check_store(ctx: &Ctx, hist: &History, counting: bool) -> PResult {
 }
 
 fn run_history<T: TElem>(ctx: &Ctx, hist: &History, counting: bool, dir: &std::path::Path) -> PResult {
-	let prunable = !hist.var;
+	let prunable = !hist.var || hist.var_prunable;
 	let mut backend: PMMRBackend<T> = open_backend(dir, prunable)?;
 	// PMMRHandle { backend, size }: the size the handle carries between units
 	let mut size = backend.unpruned_size();
@@ -687,7 +694,7 @@ fn run_history<T: TElem>(ctx: &Ctx, hist: &History, counting: bool, dir: &std::p
 			XStep::Reopen | XStep::ReopenWithoutSizeFile => {
 				drop(backend);
 				if *step == XStep::ReopenWithoutSizeFile {
-					ensure!(hist.var, "harness:bad-history", "step {}: only the variable-size backend has a size file", si);
+					ensure!(hist.var && !hist.var_prunable, "harness:bad-history", "step {}: only the non-prunable variable-size backend is reopened without its size file", si);
 					let _ = std::fs::remove_file(dir.join("pmmr_size.bin"));
 					st.size_file_rebuilt += 1;
 				}
@@ -706,7 +713,7 @@ fn run_history<T: TElem>(ctx: &Ctx, hist: &History, counting: bool, dir: &std::p
 	if counting {
 		let ev = &ctx.ev;
 		ev.eval();
-		ev.class(if hist.var { "store:var_size_nonprunable_histories" } else { "store:fixed_size_prunable_histories" });
+		ev.class(if hist.var_prunable { "store:var_size_prunable_histories" } else if hist.var { "store:var_size_nonprunable_histories" } else { "store:fixed_size_prunable_histories" });
 		if st.reopen > 0 {
 			ev.class("store:histories_with_reopen");
 		}
